@@ -155,6 +155,15 @@ def r_axis_binding(rule, root=None):
         env = E.env_at(fn["body"], c)
         args = [E.canon(a, env) for a in c["args"][:3]] + [str(A.ftxt(a)) for a in c["args"][3:]]
         want = [p_ for p_ in params[1:4]] if label == "tracing" else ["x[i]", "y[i]", "z[i]"]
+        lanes = None
+        if label == "bulk":
+            # the lane loop: `for i in 0..n` reading x[i], or x / y / z walked in lock step
+            bs = [b_ for b_ in (A.enclosing_binders(fn["body"], c) or []) if b_[2].get("k") == "For"]
+            lanes = A.lane_bindings(bs[-1][2]) if bs else None
+            if lanes is not None and lanes[0]:
+                sub = {nm: "%s[%s]" % (src, lanes[0]) for nm, src in lanes[1].items()}
+                args = [sub.get(a_, a_) for a_ in args[:3]] + args[3:]
+                want = ["%s[%s]" % (p_, lanes[0]) for p_ in "xyz"]
         if args[:3] == want and len(args) == 4:
             rule.ok("%s: transform(x, y, z, t) in axis order" % label, file=SHAPE, line=c["ln"])
         else:
@@ -174,6 +183,9 @@ def r_axis_binding(rule, root=None):
             other = [(l, cx) for l, cx in leaves if (l, cx) not in some]
             okp = bool(some) and any(A.some_binding(p) == args[3] and A.option_source(scr) == "transform" for p, scr in some[0][1])
             el = E.canon(A.unblock(other[0][0]), env) if len(other) == 1 else "?"
+            if lanes is not None and lanes[0] and lanes[1]:
+                import re as _re
+                el = _re.sub(r"\b(\w+)\b", lambda m_: ("%s[%s]" % (lanes[1][m_.group(1)], lanes[0])) if m_.group(1) in lanes[1] else m_.group(0), el)
             if el != "(%s)" % ",".join(want):
                 rule.bad("%s|no-transform" % label, "%s eval_raw without a transform must pass (%s) through unchanged, found %s" % (label, ", ".join(want), el), A.where(fn, holder))
             else:
@@ -185,15 +197,18 @@ def r_axis_binding(rule, root=None):
     if len(ms) != 1:
         rule.lost("match var in ShapeBulkEval::eval_raw")
         return
+    holders = {}
     for arm in ms[0]["arms"]:
         pt = A.ftxt(arm["pat"])
         tt = A.ftxt(A.strip(arm["body"]))
         if pt in ("Var::X", "Var::Y", "Var::Z"):
             k = "XYZ".index(pt[-1])
-            if tt == "axes[%d]=Some(index)" % k:
-                rule.ok("bulk: %s remembered in axes[%d]" % (pt, k), file=SHAPE, line=arm["ln"])
+            body_ = A.unblock(arm["body"])
+            if body_.get("k") == "Assign" and str(A.ftxt(body_["right"])) == "Some(index)" and str(A.ftxt(body_["left"])) not in holders.values():
+                holders[k] = str(A.ftxt(body_["left"]))
+                rule.ok("bulk: %s remembered in %s" % (pt, holders[k]), file=SHAPE, line=arm["ln"])
             else:
-                rule.bad("bulk|%s" % pt, "ShapeBulkEval::eval_raw records %s as `%s`, expected axes[%d] = Some(index)" % (pt, tt, k), A.where(b, arm))
+                rule.bad("bulk|%s" % pt, "ShapeBulkEval::eval_raw records %s as `%s`, expected a slot of its own = Some(index)" % (pt, tt), A.where(b, arm))
         elif pt.startswith("Var::V("):
             vn = pt[len("Var::V("):-1]
             if "copy_vars(&mutself.scratch[index],%s)?" % vn in tt:
@@ -201,20 +216,37 @@ def r_axis_binding(rule, root=None):
             else:
                 rule.bad("bulk|Var::V", "a free variable's row must be filled with copy_vars(&mut self.scratch[index], %s)?" % vn, A.where(b, arm))
     pairs = {}
-    for i in A.find(b["body"], "If"):
-        c = A.ftxt(i["cond"])
-        import re
+    import re
 
-        m = re.fullmatch(r"letSome\((\w+)\)=axes\[(\d)\]", c)
-        if m:
+    # the transformed point: `let (x, y, z) = <transform choice>` - its k-th name goes to the k-th row
+    tcalls = [c for c in A.find(b["body"], "Call") if (A.path_segs(c["func"]) or [])[-2:] == ["Transformable", "transform"]]
+    comp = ["x", "y", "z"]
+    lane_i = "i"
+    if len(tcalls) == 1:
+        for l_ in A.find(b["body"], "Let"):
+            p_ = l_["pat"]["pat"] if l_["pat"].get("k") == "PType" else l_["pat"]
+            if l_.get("init") is not None and p_.get("k") == "PTuple" and len(p_["elems"]) == 3 and any(n is tcalls[0] for n in A.walk(l_["init"])):
+                comp = [A.binding_name(x_) for x_ in p_["elems"]]
+        bs_ = [b_ for b_ in (A.enclosing_binders(b["body"], tcalls[0]) or []) if b_[2].get("k") == "For"]
+        ln_ = A.lane_bindings(bs_[-1][2]) if bs_ else None
+        if ln_ and ln_[0]:
+            lane_i = ln_[0]
+    for i in A.find(b["body"], "If"):
+        c = A.strip(i["cond"])
+        if c.get("k") != "LetCond":
+            continue
+        v_ = A.some_binding(c["pat"])
+        src = str(A.ftxt(A.strip(c["e"])))
+        ks = [k_ for k_, h_ in holders.items() if h_ == src]
+        if v_ and len(ks) == 1:
             tt = A.ftxt(i["then"])
-            m2 = re.fullmatch(r"\{self\.scratch\[%s\]\[i\]=(\w+);\}" % m.group(1), tt)
-            pairs[int(m.group(2))] = m2.group(1) if m2 else tt
-    for k, ax in enumerate("xyz"):
+            m2 = re.fullmatch(r"\{self\.scratch\[%s\]\[%s\]=(\w+);\}" % (re.escape(v_), re.escape(lane_i)), str(tt))
+            pairs[ks[0]] = m2.group(1) if m2 else str(tt)
+    for k, ax in enumerate(comp):
         if pairs.get(k) == ax:
-            rule.ok("bulk: axes[%d] row receives %s" % (k, ax))
+            rule.ok("bulk: the row remembered for axis %d receives %s" % (k, ax))
         else:
-            rule.bad("bulk|axes%d" % k, "the row remembered in axes[%d] must receive `%s`, found `%s`" % (k, ax, pairs.get(k)), A.where(b))
+            rule.bad("bulk|axes%d" % k, "the row remembered for axis %d (%s) must receive component %d of the (transformed) point `%s`, found `%s`" % (k, holders.get(k), k, ax, pairs.get(k)), A.where(b))
     # result is output 0
     t1 = A.ftxt(t["body"]["stmts"][-1])
     t2 = A.ftxt(b["body"]["stmts"][-1])
